@@ -42,11 +42,15 @@ pub fn alphabet() -> Vec<ROp> {
         ROp::Union("(add a b)", "(add b a)"),
         ROp::Union("(app (app h (var $x)) (var $y))", "(app (app h (var $y)) (var $x))"),
         ROp::Union("(mul a (var $x))", "zero"),
+        ROp::Add("(app (app (app h (var $x)) (var $y)) (var $x))"),
+        ROp::Union("(add (var $x) (add (var $y) (var $z)))", "(add (var $y) (add (var $z) (var $x)))"),
+        ROp::Add("(mul (add (var $x) (add (var $y) (var $z))) (var $y))"),
         ROp::Rw(0),
         ROp::Rw(1),
         ROp::Rw(2),
         ROp::Match("(app ?f ?x)"),
         ROp::Match("(add ?a ?b)"),
+        ROp::Match("(mul ?a (var $q))"),
         ROp::Extract,
     ]
 }
@@ -63,13 +67,35 @@ pub fn show(o: &ROp) -> String {
 
 fn depths(tier: Tier) -> Vec<u32> {
     match tier {
-        Tier::Quick => vec![1, 2, 3],
+        Tier::Quick => vec![1, 2, 103],
         Tier::Thorough => vec![1, 2, 3],
+    }
+}
+
+/// depth 103 = histories of length 3 whose first operation is one of the four unions and whose last is not a union
+fn seg_count(depth: u32) -> u64 {
+    let n = alphabet().len() as u64;
+    if depth == 103 {
+        let unions = alphabet().iter().filter(|o| matches!(o, ROp::Union(..))).count() as u64;
+        unions * n * (n - unions)
+    } else {
+        n.pow(depth)
     }
 }
 
 pub fn decode(depth: u32, mut idx: u64) -> Vec<usize> {
     let n = alphabet().len() as u64;
+    if depth == 103 {
+        let a = alphabet();
+        let unions: Vec<usize> = (0..a.len()).filter(|i| matches!(a[*i], ROp::Union(..))).collect();
+        let others: Vec<usize> = (0..a.len()).filter(|i| !matches!(a[*i], ROp::Union(..))).collect();
+        let u = unions[(idx % unions.len() as u64) as usize];
+        idx /= unions.len() as u64;
+        let m = (idx % n) as usize;
+        idx /= n;
+        let l = others[(idx % others.len() as u64) as usize];
+        return vec![u, m, l];
+    }
     let mut v = Vec::new();
     for _ in 0..depth {
         v.push((idx % n) as usize);
@@ -311,7 +337,7 @@ impl Prop for ReproProp {
     }
     fn segments(&self, tier: Tier, _cfg: &str) -> Vec<Seg> {
         let n = alphabet().len() as u64;
-        depths(tier).into_iter().map(|d| Seg { name: format!("histories-of-length-{d}"), count: n.pow(d), what: format!("one index = one history of {d} operations over a {n}-operation alphabet of the Symbol-carrying Arith language (insert, union, 3 rewrite-iteration rule sets incl. the substitution form, 2 ematch patterns, extract); executed once per (interferer schedule, replica kind), each in its own process") }).collect()
+        depths(tier).into_iter().map(|d| Seg { name: if d == 103 { "histories-of-length-3-starting-with-a-union".to_string() } else { format!("histories-of-length-{d}") }, count: seg_count(d), what: format!("one index = one history of {} operations over a {n}-operation alphabet", d % 100) + &format!(" of the Symbol-carrying Arith language (insert, union, 3 rewrite-iteration rule sets incl. the substitution form, 2 ematch patterns, extract); executed once per (interferer schedule, replica kind), each in its own process") }).collect()
     }
     fn goals(&self) -> Vec<&'static str> {
         vec!["interferer_shifted_a_symbol_id", "history_with_rewrite_iteration", "history_with_match_list", "noise_thread_replica_run"]
